@@ -87,6 +87,12 @@ package rtpconn
 //@   assume rely-inv: invw(t.atomics.layerInfo)
 //@   modifies nothing
 //@   ensures layers: result1 == int(wsid(t.atomics.layerInfo)) && result2 == int(wtid(t.atomics.layerInfo))
+//@   -- C04: the loss-based ceiling that is reported stays within its fixed bounds - also before the first receiver report, when the
+//@   -- stored value is still 0 (a track created in the first 30 s of the process, whose zero time stamp looks recent, reported a ceiling
+//@   -- of 0: repaired) - unless the receiver's own estimate (REMB) is lower.  Rely: updateRate only ever stores values within the bounds
+//@   -- (proved there), so the word holds 0 or such a value.
+//@   assume rely-rate: t.maxBitrate.bitrate == 0 || (9600 <= t.maxBitrate.bitrate && t.maxBitrate.bitrate <= (1 << 30))
+//@   proves loss-floor: result0 >= 9600 || (callresult("Get", 2) != 0 && result0 == callresult("Get", 2))
 //@
 //@ func (*rtpDownTrack).adjustLayer
 //@   safe
